@@ -64,6 +64,11 @@ def cases(rng, tier):
         add('huge-planted-kernel', H.planted_rank(rng, n, m, r, 200, cbits=8))
     for tag, a in H.structured_mats(rng, 8 if not th else 80, 8, [64]):
         add(tag + '-8x64', a)
+    # tall matrices of dimension 8..11 with tiny entries: many reduction passes per column and a large growth of the intermediate
+    # entries although the input is small (a pass limit or a size estimate taken from the INPUT entries is wrong exactly here)
+    for _ in range(40 if not th else 400):
+        m = rng.randrange(6, 11); n = m + rng.randrange(1, 3)
+        add('tall-tiny-entries-%s' % ('8-9' if m < 9 else '10+'), [[rng.randrange(-3, 4) for _ in range(m)] for _ in range(n)])
     # separate ops on their own
     for tag, a in H.structured_mats(rng, 150 if not th else 1500, 6, [2, 8, 64]):
         out.append(Case('hnf_kernel', line('hnf_kernel', a), oracle=H.o_kernel(a), always_oracle=True, nontrivial=has_kernel(a), tag='kernel-' + tag))
